@@ -6,6 +6,10 @@
 (* yet), ts = the wall-clock tick &Timestamp must report (-1: none yet);    *)
 (* ret = the value returned by Timer::stop resp. the wall-clock tick a      *)
 (* TimestampOnClose reports when it is closed in this step.                 *)
+(* Amb steps change the thread-local override (a: A, B, none) and the thread  *)
+(* (d = 1: another thread) under which the following steps and observations  *)
+(* run; objects are created with an explicit source A or from the ambient    *)
+(* override (a = how).  Expected values are on the CAPTURED source's clock.   *)
 (* The header carries the unit table: reported number = seconds since the   *)
 (* epoch * perSec, printed as a whole number iff integral.                  *)
 (***************************************************************************)
@@ -16,21 +20,26 @@ VARIABLE hist
 
 RInit == Init /\ hist = <<>>
 
-H(op, d, ret) == hist' = Append(hist, [op |-> op, d |-> d, ret |-> ret,
-                                       timer |-> IF tmSt' = "live" THEN TimerReport' ELSE -2,
-                                       ts |-> TsCloseVal'])
+\* a: ambient code / how the object is created, depending on the step
+H(op, d, ret, a) == hist' = Append(hist, [op |-> op, d |-> d, ret |-> ret, a |-> a,
+                                          timer |-> IF tmSt' = "live" THEN TimerReport' ELSE -2,
+                                          ts |-> TsCloseVal'])
 LastOp == IF hist = <<>> THEN "" ELSE hist[Len(hist)].op
 
 RNext ==
-    \/ \E d \in Ds : LastOp # "Advance" /\ Advance(d) /\ H("Advance", d, None)
-    \/ TimerNew /\ H("TimerNew", 0, None)
-    \/ TimerStop /\ H("TimerStop", 0, TimerStopRet)
-    \/ TsNew /\ H("TsNew", 0, None)
-    \/ TocNew /\ H("TocNew", 0, None)
-    \/ TocClose /\ H("TocClose", 0, TocCloseVal)
+    \/ \E d \in Ds : LastOp # "Advance" /\ Advance(d) /\ H("Advance", d, None, "")
+    \/ \E d \in Ds : LastOp # "AdvanceB" /\ AdvanceB(d) /\ H("AdvanceB", d, None, "")
+    \* d = 1: the following steps run on another thread (with its own thread-local override a)
+    \/ \E a \in Ambients, t \in Threads :
+         LastOp # "Amb" /\ SetAmbient(a, t) /\ H("Amb", IF t = "main" THEN 0 ELSE 1, None, a)
+    \/ \E how \in Hows : TimerNew(how) /\ H("TimerNew", 0, None, how)
+    \/ TimerStop /\ H("TimerStop", 0, TimerStopRet, "")
+    \/ \E how \in Hows : TsNew(how) /\ H("TsNew", 0, None, how)
+    \/ TocNew /\ H("TocNew", 0, None, "")
+    \/ TocClose /\ H("TocClose", 0, TocReport, "")
 
 RSpec == RInit /\ [][RNext]_<<vars, hist>>
 Bound == Len(hist) <= Depth
 UnitTable == [u \in Units |-> [perSec |-> PerSecond(u), integral |-> Integral(u)]]
-Emit == (Len(hist) = Depth) => PrintT(<<"REPLAY", ToJson([w0 |-> W0, units |-> UnitTable, steps |-> hist])>>)
+Emit == (Len(hist) = Depth) => PrintT(<<"REPLAY", ToJson([w0 |-> W0, w0b |-> W0B, units |-> UnitTable, steps |-> hist])>>)
 =============================================================================
